@@ -152,6 +152,27 @@ func verifUnknownMarks() (int, []string) {
 			}
 		}
 	}
+	// a mark on one element of the for_each collection stays on what that element generates, and
+	// only there (the written-out blocks say which attribute refers to the marked value)
+	{
+		mspec := &hcldec.BlockListSpec{TypeName: "b", Nested: hcldec.ObjectSpec{"v": &hcldec.AttrSpec{Name: "v", Type: cty.String}}}
+		src := "dynamic \"b\" {\n for_each = items\n content {\n  v = b.value\n }\n}\n"
+		want := "b {\n v = \"public\"\n}\nb {\n v = s\n}\n"
+		f1, d1 := hclsyntax.ParseConfig([]byte(src), "t.hcl", hcl.InitialPos)
+		f2, d2 := hclsyntax.ParseConfig([]byte(want), "w.hcl", hcl.InitialPos)
+		if !d1.HasErrors() && !d2.HasErrors() {
+			n++
+			ctx := &hcl.EvalContext{Variables: map[string]cty.Value{
+				"s":     cty.StringVal("hidden").Mark("secret"),
+				"items": cty.TupleVal([]cty.Value{cty.StringVal("public"), cty.StringVal("hidden").Mark("secret")}),
+			}}
+			v1, e1 := hcldec.Decode(Expand(f1.Body, ctx), mspec, ctx)
+			v2, e2 := hcldec.Decode(f2.Body, mspec, ctx)
+			if e1.HasErrors() != e2.HasErrors() || !v1.RawEquals(v2) {
+				fails = append(fails, fmt.Sprintf("input=%q for_each with a mark on one element: the expansion decodes to %#v, the written-out blocks to %#v", src, v1, v2))
+			}
+		}
+	}
 	return n, fails
 }
 
